@@ -68,6 +68,15 @@ Section Mon.
     unfold mst in Hq. rewrite Hq. cbn [runmon]. rewrite Hs. reflexivity.
   Qed.
 
+  Lemma triple_st_write (op : store_op) (P : S -> Prop) (Q : bool -> S -> Prop) :
+    (forall q ok, P q -> exists q', step q (AStore op ok) = Some q' /\ Q ok q') -> triple P (st_write op) Q.
+  Proof.
+    intros H q0 e q Hq Hp. destruct (H q (negb (faulty e)) Hp) as (q' & Hs & HQ).
+    exists q'. split; [|exact HQ].
+    unfold mst, st_write. cbn [snd upd_trace e_trace rev]. rewrite runmon_app.
+    unfold mst in Hq. rewrite Hq. cbn [runmon]. rewrite Hs. reflexivity.
+  Qed.
+
   (* programs that leave the trace alone *)
   Definition silent {A} (m : M A) : Prop := forall e, e_trace (snd (m e)) = e_trace e.
 
